@@ -168,9 +168,27 @@ Fixpoint dec_methods (rows : list (list Z)) : option (list method) :=
   | r :: rs => match dec_method r, dec_methods rs with Some m, Some l => Some (m :: l) | _, _ => None end
   end.
 
+(* #[skip_func] (receiver field bit 5, +32): the method is not exported — the definitions the generator works from are the trait WITHOUT it.  The harness
+   prints [-9; has a slot; has a wrapper; has a forwarding method] for such a method, all of which must be 0; the rows of the other methods are those
+   of the trait without the skipped ones (slot positions included).  Bit 6 (+64, the method is declared `extern "C"`) changes nothing. *)
+Definition is_skipped (row : list Z) : bool := match row with r :: _ => Z.testbit r 5 | [] => false end.
+Definition exported (rows : list (list Z)) : list (list Z) := filter (fun r => negb (is_skipped r)) rows.
+Fixpoint merge_skipped (rows : list (list Z)) (irs : list (list Z)) : list (list Z) :=
+  match rows with
+  | [] => []
+  | r :: rs => if is_skipped r then [-9; 0; 0; 0] :: merge_skipped rs irs
+               else match irs with i :: rest => i :: merge_skipped rs rest | [] => [] end
+  end.
+(* the rows at the positions of the exported methods *)
+Fixpoint strip_skipped (rows : list (list Z)) (out : list (list Z)) : list (list Z) :=
+  match rows, out with
+  | r :: rs, o :: os => if is_skipped r then strip_skipped rs os else o :: strip_skipped rs os
+  | _, _ => []
+  end.
+
 Definition run_gen (params : list Z) (rows : list (list Z)) : list (list Z) :=
-  match dec_methods rows with
-  | Some ms => enc_all 0 (gen_trait (mkt (match params with p :: _ => negb (p =? 0) | [] => false end) ms))
+  match dec_methods (exported rows) with
+  | Some ms => merge_skipped rows (enc_all 0 (gen_trait (mkt (match params with p :: _ => negb (p =? 0) | [] => false end) ms)))
   | None => [[-2]]
   end.
 
